@@ -350,11 +350,9 @@ theorem columns_spec_down (g : Globals) (hg : g.dialect = .mysql) (hio : g.ignor
     rw [this]
     exact equiv_of _ cO hcdn hcdt hcdo
 
-/-- **C02, the column clause on the reference engine, at the level of the database.**  Executed on the reference
-    engine's *new* schema (referential checks aside), the statements `MigrationColumnDown` prints for the table are
-    well-formed at every step; afterwards the table's column list is equal to the old side's and every other table is
-    untouched. -/
-theorem columns_spec_down_db (g : Globals) (hg : g.dialect = .mysql) (hio : g.ignoreOrder = false) (rc : Bool)
+/-- `columns_spec_down` together with the shape of the printed statements: each is about table `t` and carries no
+    PRIMARY KEY option -/
+theorem columns_spec_down_pre (g : Globals) (hg : g.dialect = .mysql) (hio : g.ignoreOrder = false) (rc : Bool)
     (old new : List Stmt) (dbO dbN : DB) (ho : old.all Stmt.elemSafe = true) (hn : new.all Stmt.elemSafe = true)
     (hpo : old.all Stmt.plainOpts = true) (hpn : new.all Stmt.plainOpts = true)
     (heo : execAll rc [] old = some dbO) (hen : execAll rc [] new = some dbN)
@@ -363,10 +361,11 @@ theorem columns_spec_down_db (g : Globals) (hg : g.dialect = .mysql) (hio : g.ig
     (hc : Abs.OrderCompatible tbN.colNames tbO.colNames) (hne : ∀ n ∈ tbN.colNames ++ tbO.colNames, n ≠ "")
     (hncO : ∀ c ∈ tbO.cols, ∀ k ∈ c.opts, k.noComment = true)
     (hncN : ∀ c ∈ tbN.cols, ∀ k ∈ c.opts, k.noComment = true) :
-    ∃ td ∈ d.tables, td.name = t ∧ td.migrationColumnDown g = .ok (Table.walkCols g t false [] td.cols) ∧
-      ∃ db' tb', execAll false dbN (Table.walkCols g t false [] td.cols).1 = some db' ∧
-        db'.find t = some tb' ∧ colsEquiv tb'.cols tbO.cols = true ∧
-        (∀ u, u ≠ t → db'.find u = dbN.find u) ∧ db'.map (·.name) = dbN.map (·.name) := by
+    ∃ td ∈ d.tables, td.name = t ∧ td.action = .none ∧
+      td.migrationColumnDown g = .ok (Table.walkCols g t false [] td.cols) ∧
+      ∃ cols', colExecAll tbN.cols (Table.walkCols g t false [] td.cols).1 = some cols' ∧
+        colsEquiv cols' tbO.cols = true ∧
+        (∀ s ∈ (Table.walkCols g t false [] td.cols).1, s.table = t ∧ s.defNoPk = true) := by
   have hoc : old.all Stmt.colSafe = true :=
     List.all_eq_true.mpr (fun s hs => Stmt.colSafe_of_elemSafe s (List.all_eq_true.mp ho s hs))
   have hnc : new.all Stmt.colSafe = true :=
@@ -478,6 +477,31 @@ theorem columns_spec_down_db (g : Globals) (hg : g.dialect = .mysql) (hio : g.ig
       show (!(colOf cd).2) = true
       rw [key cd (Or.inr ⟨t2, rfl⟩)]; rfl
     | _ => rfl
+  exact ⟨td, htd, hname, hact, hdown, cols', hex, heq, hss⟩
+
+
+/-- **C02, the column clause on the reference engine, at the level of the database.**  Executed on the reference
+    engine's *new* schema (referential checks aside), the statements `MigrationColumnDown` prints for the table are
+    well-formed at every step; afterwards the table's column list is equal to the old side's and every other table is
+    untouched. -/
+theorem columns_spec_down_db (g : Globals) (hg : g.dialect = .mysql) (hio : g.ignoreOrder = false) (rc : Bool)
+    (old new : List Stmt) (dbO dbN : DB) (ho : old.all Stmt.elemSafe = true) (hn : new.all Stmt.elemSafe = true)
+    (hpo : old.all Stmt.plainOpts = true) (hpn : new.all Stmt.plainOpts = true)
+    (heo : execAll rc [] old = some dbO) (hen : execAll rc [] new = some dbN)
+    (d : Migration) (hd : loadAndDiff g old new = .ok d)
+    (t : String) (tbO tbN : TableSpec) (hfo : dbO.find t = some tbO) (hfn : dbN.find t = some tbN)
+    (hc : Abs.OrderCompatible tbN.colNames tbO.colNames) (hne : ∀ n ∈ tbN.colNames ++ tbO.colNames, n ≠ "")
+    (hncO : ∀ c ∈ tbO.cols, ∀ k ∈ c.opts, k.noComment = true)
+    (hncN : ∀ c ∈ tbN.cols, ∀ k ∈ c.opts, k.noComment = true) :
+    ∃ td ∈ d.tables, td.name = t ∧ td.migrationColumnDown g = .ok (Table.walkCols g t false [] td.cols) ∧
+      ∃ db' tb', execAll false dbN (Table.walkCols g t false [] td.cols).1 = some db' ∧
+        db'.find t = some tb' ∧ colsEquiv tb'.cols tbO.cols = true ∧
+        (∀ u, u ≠ t → db'.find u = dbN.find u) ∧ db'.map (·.name) = dbN.map (·.name) := by
+  have hnc : new.all Stmt.colSafe = true :=
+    List.all_eq_true.mpr (fun s hs => Stmt.colSafe_of_elemSafe s (List.all_eq_true.mp hn s hs))
+  obtain ⟨td, htd, hname, _, hdown, cols', hex, heq, hss⟩ := columns_spec_down_pre g hg hio rc old new dbO dbN ho hn hpo hpn
+    heo hen d hd t tbO tbN hfo hfn hc hne hncO hncN
+  obtain ⟨mn0, _, hrn0⟩ := ReaderMysql.run_rel rc new {} [] dbN Rel.empty hnc hen
   obtain ⟨db', tb', he', hf', hc', hother, hnames'⟩ := execAll_of_colExecAll _ dbN t tbN cols' hrn0.nodup hfn hss hex
   exact ⟨td, htd, hname, hdown, db', tb', he', hf', by rw [hc']; exact heq, hother, hnames'⟩
 
